@@ -622,7 +622,8 @@ func genC09(rt *rapid.T) C09Scenario {
 		s.Lines = append(s.Lines, idx)
 	}
 	s.GapMs = []int{rapid.SampledFrom([]int{1, 250, 1000, 7000}).Draw(rt, "gap")}
-	s.Limit = rapid.SampledFrom([]int{1000, 1000, 5, 1, 100}).Draw(rt, "limit")
+	// -1: no limit parameter at all; 0: limit=0. The ClickHouse path reads both as "no limit" (MainLimitPlanner)
+	s.Limit = rapid.SampledFrom([]int{1000, 1000, 5, 1, 100, 0, -1}).Draw(rt, "limit")
 	s.Forward = rapid.Bool().Draw(rt, "forward")
 	s.StepS = rapid.SampledFrom([]int{1, 5, 15}).Draw(rt, "step")
 	s.RowLatUs = rapid.SampledFrom([]int64{0, 0, 3, 700}).Draw(rt, "rowlat")
@@ -738,7 +739,7 @@ func c09body(ri *simcheck.RunInfo, s C09Scenario) {
 	case <-sim.Killed():
 		return
 	}
-	req := Req{Kind: "query_range", Query: p.Render(), Start: fmt.Sprint(c09Start), End: fmt.Sprint(c09End), Step: fmt.Sprint(s.StepS), Limit: fmt.Sprint(s.Limit), Result: res}
+	req := Req{Kind: "query_range", Query: p.Render(), Start: fmt.Sprint(c09Start), End: fmt.Sprint(c09End), Step: fmt.Sprint(s.StepS), Limit: limitParam(s.Limit), Result: res}
 	if s.Forward {
 		req.Direction = "forward"
 	}
@@ -842,7 +843,7 @@ func c09body(ri *simcheck.RunInfo, s C09Scenario) {
 			}
 		}
 		wantN := len(expEntries)
-		if s.Limit < wantN {
+		if s.Limit > 0 && s.Limit < wantN {
 			wantN = s.Limit
 		}
 		if ngot != wantN {
@@ -990,4 +991,11 @@ func classOfProg(p Prog) string {
 		parts = append(parts, "cmp")
 	}
 	return "[" + strings.Join(parts, " | ") + "]"
+}
+
+func limitParam(l int) string {
+	if l < 0 {
+		return ""
+	}
+	return fmt.Sprint(l)
 }
